@@ -21,6 +21,8 @@ the SRV-mismatch edge cannot reach an Ok return.  Classic: NONC present with the
 (4) Size budget (byte-length domain): worst-case encoded response per version = header(6 tags) + SIG + NONC(upper bound from
 the request guard) + PATH(width x 8 levels, u8 batch size) + SREP + CERT + INDX (+12 framing) <= MIN_REQUEST_LENGTH.  Fault injection keeps the size: every alternative Grease::add_errors can return is the signature corruption (same fields, 64 random SIG bytes) or a permutation of the fields
 (one pair pushed per position of index::sample(rng, n, n), n = number of fields); any other pathology is reported as not known to preserve the size.
+(3b) "Well-formed": the parsers answer only what RtMessage::from_bytes accepted, and C05's decoder rules (known tags, strictly ascending order enforced on every
+append, offset guards) are obligations here too.
 """
 NOT_DECIDED = "nothing essential; the budget over-approximates (path depth 8 from the u8 batch size)"
 TRUSTED = ["Ed25519 signatures are 64 bytes and public keys 32 bytes", "mio recv_from returns the datagram length"]
